@@ -4,6 +4,7 @@ import (
 	"encoding/binary"
 	"fmt"
 	"math/big"
+	"strings"
 
 	sdkmath "cosmossdk.io/math"
 	sdk "github.com/cosmos/cosmos-sdk/types"
@@ -11,10 +12,12 @@ import (
 	distrtypes "github.com/cosmos/cosmos-sdk/x/distribution/types"
 	stakingtypes "github.com/cosmos/cosmos-sdk/x/staking/types"
 	"github.com/ethereum/go-ethereum/common"
+	cmath "github.com/ethereum/go-ethereum/common/math"
 	ethtypes "github.com/ethereum/go-ethereum/core/types"
+	"github.com/ethereum/go-ethereum/signer/core/apitypes"
 
+	"github.com/EscanBE/evermint/v12/constants"
 	cpcabi "github.com/EscanBE/evermint/v12/x/cpc/abi"
-	"github.com/EscanBE/evermint/v12/x/cpc/eip712"
 
 	"verifharness/chain"
 	"verifharness/trace"
@@ -35,7 +38,7 @@ import (
 //	Tamper  "none" | "amount" | "validator" | "sig": a field changed after signing
 type Op struct {
 	M, V, Src, To, Act, MD, Signer, Chain, Tamper string
-	Amt                                         int64
+	Amt                                           int64
 }
 
 // J is the trace form.
@@ -135,13 +138,40 @@ func otherVal(v string) string {
 	return "v0"
 }
 
-// sign712 signs the typed message the way wallets do (EIP-712, domain of the staking precompile).
-func (w *World) sign712(msg eip712.TypedMessage, o Op) (r, s [32]byte, v uint8) {
+// typedData is the harness' own statement of the EIP-712 documents wallets sign for the staking precompile
+// (domain: application name, version 1.0.0, chain id, the precompile as verifying contract, salt = its last byte);
+// deliberately not built with the repository's helpers, so that a change of the domain on the chain side shows up.
+func typedData(msg interface{}, chainID *big.Int) apitypes.TypedData {
+	td := apitypes.TypedData{
+		Types: apitypes.Types{"EIP712Domain": []apitypes.Type{{Name: "name", Type: "string"}, {Name: "version", Type: "string"},
+			{Name: "chainId", Type: "uint256"}, {Name: "verifyingContract", Type: "address"}, {Name: "salt", Type: "string"}}},
+		Domain: apitypes.TypedDataDomain{Name: strings.ToUpper(constants.ApplicationName), Version: "1.0.0", ChainId: (*cmath.HexOrDecimal256)(chainID),
+			VerifyingContract: CPC.Hex(), Salt: fmt.Sprintf("0x%x", CPC.Bytes()[19])},
+	}
+	switch m := msg.(type) {
+	case cpcabi.StakingMessage:
+		td.PrimaryType = "StakingMessage"
+		td.Types["StakingMessage"] = []apitypes.Type{{Name: "action", Type: "string"}, {Name: "delegator", Type: "address"}, {Name: "validator", Type: "string"},
+			{Name: "amount", Type: "uint256"}, {Name: "denom", Type: "string"}, {Name: "oldValidator", Type: "string"}}
+		td.Message = apitypes.TypedDataMessage{"action": m.Action, "delegator": m.Delegator.String(), "validator": m.Validator,
+			"amount": (*cmath.HexOrDecimal256)(m.Amount), "denom": m.Denom, "oldValidator": m.OldValidator}
+	case cpcabi.WithdrawRewardMessage:
+		td.PrimaryType = "WithdrawRewardMessage"
+		td.Types["WithdrawRewardMessage"] = []apitypes.Type{{Name: "delegator", Type: "address"}, {Name: "fromValidator", Type: "string"}}
+		td.Message = apitypes.TypedDataMessage{"delegator": m.Delegator.String(), "fromValidator": m.FromValidator}
+	default:
+		panic("unknown typed message")
+	}
+	return td
+}
+
+// sign712 signs the typed message the way wallets do (EIP-712 hash: keccak(0x1901 | domain separator | struct hash)).
+func (w *World) sign712(msg interface{}, o Op) (r, s [32]byte, v uint8) {
 	chainID := big.NewInt(chain.EIP155)
 	if o.Chain == "other" {
 		chainID = big.NewInt(chain.EIP155 + 1)
 	}
-	hash, err := eip712.EIP712HashingTypedMessage(msg, chainID)
+	hash, _, err := apitypes.TypedDataAndHash(typedData(msg, chainID))
 	if err != nil {
 		panic(err)
 	}
@@ -198,12 +228,14 @@ func (w *World) Sdk(m NativeMsg) sdk.Msg {
 type pre struct {
 	deleg, rew map[string]map[string]int64
 	vtok       map[string]int64
+	bal        map[string]int64
 }
 
 func preOf(p trace.M, w *World) pre {
-	x := pre{map[string]map[string]int64{}, map[string]map[string]int64{}, map[string]int64{}}
+	x := pre{map[string]map[string]int64{}, map[string]map[string]int64{}, map[string]int64{}, map[string]int64{}}
 	for _, d := range w.D {
 		x.deleg[d], x.rew[d] = map[string]int64{}, map[string]int64{}
+		x.bal[d] = p["bal"].(trace.M)[d].(int64)
 		for _, v := range w.V {
 			x.deleg[d][v] = p["deleg"].(trace.M)[d].(trace.M)[v].(int64)
 			x.rew[d][v] = p["rew"].(trace.M)[d].(trace.M)[v].(int64)
@@ -217,7 +249,7 @@ func preOf(p trace.M, w *World) pre {
 
 // withdrawAll: the validators withdrawRewards() takes rewards from.
 func (w *World) withdrawAll(p pre, d string) (ms []NativeMsg) {
-	for _, v := range w.V {
+	for _, v := range w.Iter {
 		if p.deleg[d][v] > 0 && p.rew[d][v] >= w.MinW {
 			ms = append(ms, NativeMsg{K: "withdraw", D: d, V: v})
 		}
@@ -294,6 +326,14 @@ func (w *World) Expand(p pre, caller string, o Op) []NativeMsg {
 			return nil
 		}
 		ms := w.withdrawAll(p, caller)
+		// the method's own precondition: the balance after claiming covers the amount
+		after := p.bal[caller]
+		for _, m := range ms {
+			after += p.rew[caller][m.V]
+		}
+		if after < o.Amt {
+			return nil
+		}
 		return append(ms, NativeMsg{K: "delegate", D: caller, V: w.pickValidator(p, caller), Amt: o.Amt})
 	case "delegateByMsg":
 		if !(o.MD == caller && o.Signer == caller && o.Chain == "ours" && o.Tamper == "none") || o.Amt <= 0 {
@@ -336,7 +376,7 @@ func (w *World) NativeTx(c *chain.Chain, ms []NativeMsg, price int64) (bz []byte
 		exec := authz.NewMsgExec(w.Relayer.Acc(), msgs)
 		msgs = []sdk.Msg{&exec}
 	}
-	gas := uint64(400000 + 250000*len(ms))
+	gas := uint64(300000 + 200000*len(ms))
 	fee = int64(gas) * price
 	bz, err := c.CosmosTx(acct, msgs, chain.CosmosTxOpts{Gas: gas, GasPrice: price})
 	if err != nil {
